@@ -3,6 +3,7 @@
 package rules
 
 import (
+	"regexp"
 	"os"
 	"path/filepath"
 	"strings"
@@ -30,6 +31,7 @@ type Mutant struct {
 	Func       string // text that must precede Old (start of the search window), usually "func (s *Serf) name("
 	Old, New   string
 	Old2, New2 string // optional second rewrite in the same function
+	Regexp     bool   // Old is a regular expression; every match in the function is replaced by New (used for renames)
 	Expect     string // substring of the violated obligation key that must be reported
 	Equivalent bool   // behaviour-preserving variant: the rule must stay silent
 }
@@ -57,6 +59,14 @@ func (m Mutant) Overlay(repo string) (map[string][]byte, bool) {
 		}
 	}
 	win := s[start:end]
+	if m.Regexp {
+		re, err := regexp.Compile(m.Old)
+		if err != nil || !re.MatchString(win) {
+			return nil, false
+		}
+		win = re.ReplaceAllString(win, m.New)
+		return map[string][]byte{file: []byte(s[:start] + win + s[end:])}, true
+	}
 	if strings.Count(win, m.Old) != 1 {
 		return nil, false
 	}
@@ -277,4 +287,21 @@ func decodeTargetsFresh(c *an.Ctx, rule string, funcs []*ssa.Function) int {
 		}
 	}
 	return n
+}
+
+// releaseBetween reports whether some path from instruction a to instruction b passes an explicit
+// release (Unlock/RUnlock) of lock: a and b are then not in one critical section.
+func releaseBetween(fn *ssa.Function, a, b ssa.Instruction, lock string) bool {
+	isB := func(in ssa.Instruction) bool { return in == b }
+	found := false
+	an.Instrs(fn, func(r ssa.Instruction) {
+		if l, op := an.LockOpOf(r); l != lock || !strings.HasPrefix(op, "-") {
+			return
+		}
+		if an.ReachFrom(fn, a, &an.Cut{Instrs: isB}, func(in ssa.Instruction) bool { return in == r }) != nil &&
+			an.ReachFrom(fn, r, &an.Cut{Instrs: func(in ssa.Instruction) bool { return in == a }}, isB) != nil {
+			found = true
+		}
+	})
+	return found
 }
